@@ -1947,7 +1947,12 @@ void automatic_search_text(mmd_engine * e, token * t, trie * ac) {
 
 
 /// Determine which nodes to descend into to search for abbreviations
-void automatic_search(mmd_engine * e, token * t, trie * ac) {
+static void automatic_search_depth(mmd_engine * e, token * t, trie * ac, int depth) {
+	if (depth > kMaxExportRecursiveDepth) {
+		// Deeper than any writer will print -- don't exhaust the stack with "pathologic" input
+		return;
+	}
+
 	while (t) {
 		switch (t->type) {
 			case TEXT_PLAIN:
@@ -1981,7 +1986,7 @@ void automatic_search(mmd_engine * e, token * t, trie * ac) {
 			case PAIR_UL:
 			case TABLE_CELL:
 			case TABLE_ROW:
-				automatic_search(e, t->child, ac);
+				automatic_search_depth(e, t->child, ac, depth + 1);
 				break;
 
 //			case PAIR_PAREN:
@@ -1991,6 +1996,11 @@ void automatic_search(mmd_engine * e, token * t, trie * ac) {
 
 		t = t->next;
 	}
+}
+
+
+void automatic_search(mmd_engine * e, token * t, trie * ac) {
+	automatic_search_depth(e, t, ac, 0);
 }
 
 
